@@ -569,3 +569,56 @@ Theorem c17_optimize_chunks_sort_independent_noninv :
     merge_sorted s = optimize_chunks cs m.
 Proof. exact optimize_chunks_sort_independent_noninv. Qed.
 Print Assumptions c17_optimize_chunks_sort_independent_noninv.
+
+(* ---- wave 10: the gzi reader with its error KINDS, as a total function on ARBITRARY bytes
+   (GziKinds.read_gzi_k mirrors noodles-bgzf gzi/io/reader/index.rs and the async reader of the
+   same shape: binary loop counter, no allocation from the declared count).  It refines the
+   option-valued read_gzi of the round-trip theorems, and on EVERY input its result is a closed
+   form of the input length and the declared count: UnexpectedEof iff the input is shorter than
+   8 + 16*count bytes, InvalidData ("unexpected trailing data") iff it is longer, Ok iff equal. ---- *)
+From NV Require Import Index.Layout Index.LayoutProofs Index.GziKinds Index.GziKindsProofs.
+
+Theorem c17_read_gzi_k_refines :
+  forall bs, read_gzi bs = match read_gzi_k bs with GOk l => Some l | _ => None end.
+Proof. exact read_gzi_k_refines. Qed.
+Print Assumptions c17_read_gzi_k_refines.
+
+Theorem c17_read_gzi_k_total :
+  forall bs,
+    match read_gzi_k bs with
+    | GEof => N.of_nat (length bs) < 8 \/ N.of_nat (length bs) < 8 + 16 * gzi_declared bs
+    | GOk l => N.of_nat (length bs) = 8 + 16 * gzi_declared bs /\ N.of_nat (length l) = gzi_declared bs
+    | GInvalidData => 8 + 16 * gzi_declared bs < N.of_nat (length bs)
+    end.
+Proof. exact read_gzi_k_total. Qed.
+Print Assumptions c17_read_gzi_k_total.
+
+Theorem c17_read_gzi_k_eof_iff :
+  forall bs, read_gzi_k bs = GEof <->
+    N.of_nat (length bs) < 8 + 16 * gzi_declared bs \/ N.of_nat (length bs) < 8.
+Proof. exact read_gzi_k_eof_iff. Qed.
+Print Assumptions c17_read_gzi_k_eof_iff.
+
+Theorem c17_read_gzi_k_invalid_iff :
+  forall bs, read_gzi_k bs = GInvalidData <-> 8 + 16 * gzi_declared bs < N.of_nat (length bs).
+Proof. exact read_gzi_k_invalid_iff. Qed.
+Print Assumptions c17_read_gzi_k_invalid_iff.
+
+Theorem c17_read_gzi_k_accepts_iff :
+  forall bs, (exists l, read_gzi_k bs = GOk l) <-> N.of_nat (length bs) = 8 + 16 * gzi_declared bs.
+Proof. exact read_gzi_k_accepts_iff. Qed.
+Print Assumptions c17_read_gzi_k_accepts_iff.
+
+(* a written index followed by anything is InvalidData; every strict prefix of it is UnexpectedEof *)
+Theorem c17_gzi_trailing_invalid_data :
+  forall idx b rest, N.of_nat (length idx) < 18446744073709551616 ->
+    read_gzi_k (w_gzi idx ++ b :: rest) = GInvalidData.
+Proof. exact gzi_trailing_invalid_data. Qed.
+Print Assumptions c17_gzi_trailing_invalid_data.
+
+Theorem c17_gzi_truncated_eof :
+  forall idx k, N.of_nat (length idx) < 18446744073709551616 ->
+    (k < length (w_gzi idx))%nat ->
+    read_gzi_k (firstn k (w_gzi idx)) = GEof.
+Proof. exact gzi_truncated_eof. Qed.
+Print Assumptions c17_gzi_truncated_eof.
